@@ -82,6 +82,7 @@ fn base(name: &str, prop: &'static str, alphabet: Vec<Cmd>, depth: usize, tier: 
         vbuckets: vec![],
         alt_thread_from: 0,
         no_dedup: false,
+        alt_conn_from: 0,
         roots: vec![],
     }
 }
@@ -106,6 +107,9 @@ fn c01(tier: Tier) -> Vec<SeqCfg> {
         replace(K1, b"r", 9, 0),
         store(StoreKind::Set, K1, b"", 3, 0, CasArg::CurrentPlus1),
         store(StoreKind::Set, K1, b"c", 4, 0, CasArg::Current),
+        // client-supplied versions at the top of the range (on an absent key they are taken over + 1)
+        store(StoreKind::Set, K1, b"m", 5, 0, CasArg::Arb(u64::MAX - 1)),
+        store(StoreKind::Set, K2, b"m", 5, 0, CasArg::Arb(u64::MAX - 2)),
         append(K1, b"x", CasArg::Zero),
         prepend(K2, b"y", CasArg::Zero),
         incr(K2, 1, 5, 0, CasArg::Zero),
@@ -199,6 +203,11 @@ fn c02(tier: Tier) -> Vec<SeqCfg> {
     a.push(get(K2));
     // a pending delayed flush rewrites item metadata: tokens must survive it
     a.push(flush(Some(3)));
+    // a delta of 0 is a mutation like any other: guarded, and it rotates the token
+    a.push(incr(K1, 0, 10, 0, Stale1));
+    a.push(incr(K1, 0, 10, 0, Current));
+    // a client-supplied CAS just below the top on an absent key (the item gets 2^64-1)
+    a.push(store(StoreKind::Set, K2, b"t", 0, 0, Arb(u64::MAX - 1)));
     // the quiet forms report a failed guard like the loud ones (only success is silent)
     a.push(quiet(store(StoreKind::Set, K1, b"q", 2, 0, Stale1)));
     a.push(quiet(store(StoreKind::Replace, K1, b"q", 3, 0, Stale1)));
@@ -273,6 +282,9 @@ fn c05(tier: Tier) -> Vec<SeqCfg> {
         incr(K1, 1, 9, 0, Zero),
         incr(K1, 1, 9, 2, Zero),
         decr(K1, 1, 9, 0xffff_ffff, Zero),
+        // the same guarded by the current CAS: the expiration of an incr/decr request is for creation only
+        incr(K1, 1, 9, 0, CasArg::Current),
+        decr(K1, 1, 9, 0xffff_ffff, CasArg::Current),
         delete(K1, Zero),
         set(K2, b"8", 8, 3),
         get(K2),
@@ -340,7 +352,30 @@ fn c06(tier: Tier) -> Vec<SeqCfg> {
         get(K2),
     ];
     let d = if tier == Tier::Quick { 6 } else { 8 };
-    vec![base("C06/conditional", "C06", a, d, tier)]
+    let mut v = vec![base("C06/conditional", "C06", a, d, tier)];
+    // two clients, one command at a time (no race): the same small alphabet twice, the second copy
+    // sent over a second connection of the server - what one connection has seen of a key (a miss,
+    // a hit, a refusal) is no knowledge about the key once another connection has spoken; histories
+    // are enumerated without state matching, the state in question is not in the store
+    {
+        let half = vec![
+            get(K1),
+            set(K1, b"s", 1, 0),
+            add(K1, b"A", 2, 0),
+            replace(K1, b"R", 3, 0),
+            append(K1, b"+", Zero),
+            delete(K1, Zero),
+            set(K1, b"t", 4, 1),
+        ];
+        let mut both = half.clone();
+        both.extend(half.iter().cloned());
+        both.push(tick(1));
+        let mut c = base("C06/two-connections", "C06", both, if tier == Tier::Quick { 4 } else { 5 }, tier);
+        c.alt_conn_from = half.len();
+        c.no_dedup = true;
+        v.push(c);
+    }
+    v
 }
 
 fn c07(tier: Tier) -> Vec<SeqCfg> {
@@ -383,6 +418,10 @@ fn c07(tier: Tier) -> Vec<SeqCfg> {
     a.push(get(K1));
     a.push(delete(K1, Zero));
     a.push(tick(5));
+    // an item whose own TTL is the largest one, and a delayed flush with that delay: 0xffffffff is a
+    // sentinel in the *request* of incr/decr, nowhere else
+    a.push(set(K1, b"41", 3, 0xffff_ffff));
+    a.push(flush(Some(0xffff_ffff)));
     // quiet variants: same rules, errors are still answered
     a.push(quiet(incr(K1, 1, 5, 0, Zero)));
     a.push(quiet(decr(K1, 1, 5, 0, Zero)));
@@ -412,6 +451,9 @@ fn c08(tier: Tier) -> Vec<SeqCfg> {
     a.push(flush(Some(0)));
     a.push(flush(Some(1)));
     a.push(flush(Some(3)));
+    // the quiet forms: without extras, and with a delay
+    a.push(quiet(flush(None)));
+    a.push(quiet(flush(Some(1))));
     a.push(tick(1));
     a.push(tick(3));
     let d = if tier == Tier::Quick { 7 } else { 9 };
@@ -480,6 +522,7 @@ fn c15(tier: Tier) -> Vec<SeqCfg> {
         incr(K3, 1, 5, 0xffff_ffff, Zero),
         delete(K1, Zero),
         delete(K1, CurrentPlus1),
+        delete(K1, Current),
         delete(K3, Zero),
         get(K1),
         get(K2),
